@@ -14,6 +14,9 @@ KEYS = ("op", "x", "x0", "args0", "args1", "mo", "mos", "start", "end", "n", "gr
 
 
 def run(ctx):
+    # the index arithmetic (generation order, flattening, row-major reshape, argument repetition) as a design model
+    ctx.model_check("IndexMaps", "IndexMaps_MC.cfg")
+    ctx.spec_mutant("IndexMaps", "IndexMaps_MC_tile.cfg", violated="AblateArgsOK")
     cfg = "Wrappers_MC_quick.cfg" if ctx.quick else "Wrappers_MC_thorough.cfg"
     cases, res, carry = std.m1(ctx, "Wrappers", cfg, "c08", evkeys=KEYS)
     facts = [e for (_, e) in carry]
